@@ -100,9 +100,22 @@ def misc_world(rng, S, c07):
         syms.append(S.FS(S.CSYMBOL_TYPE_TYPEDEF, 'FooMiscU%d' % r, base_type=S.FT(S.CTYPE_UNION, '_FooMiscU%d' % r), line=line + 3))
         syms.append(S.FS(S.CSYMBOL_TYPE_UNION, '_FooMiscU%d' % r, base_type=S.FT(S.CTYPE_UNION, '_FooMiscU%d' % r, child_list=kids), line=line + 4))
         line += 10
+    # function-like macros with documented parameters
+    mcomments = []
+    for i in range(rng.randint(0, 3)):
+        names = ['a', 'b', 'c'][:rng.randint(1, 3)]
+        syms.append(S.FS(S.CSYMBOL_TYPE_FUNCTION_MACRO, 'FOO_MACRO_%d' % i,
+                         base_type=S.FT(S.CTYPE_FUNCTION, child_list=[S.FS(S.CSYMBOL_TYPE_OBJECT, n) for n in names]), line=400 + i))
+        docd = [n for n in names if rng.random() < 0.7]
+        mcomments.append(('/**\n * FOO_MACRO_%d:\n%s *\n * A macro.\n *\n * Since: 1.%d\n */' % (i, ''.join(' * @%s: the %s value\n' % (n, n) for n in docd), i),
+                          '/src/foo.c', 3000 + 20 * i))
+    # containers of containers: a hash table whose values are string arrays or lists
+    for i, et in enumerate(rng.sample(['utf8 GStrv', 'utf8 GLib.List(utf8)', 'gint GLib.PtrArray(utf8)', 'utf8 utf8'], rng.randint(1, 3))):
+        syms.append(S.func('foo_misc_table_%d' % i, S.VOID, [S.param('t', S.ptr(S.td('GHashTable')))], line=450 + i))
+        mcomments.append(('/**\n * foo_misc_table_%d:\n * @t: (element-type %s): a table\n */' % (i, et), '/src/foo.c', 3500 + 10 * i))
     # a type of an included namespace whose name begins with the name of this one (Foo / FooExt)
     syms.append(S.func('foo_misc_use_ext', S.VOID, [S.param('thing', S.ptr(S.td('FooExtThing')))], line=300))
-    r = S.run(syms, includes=['GLib', 'GObject', 'FooExt'], warnings=False)
+    r = S.run(syms, comments=mcomments, includes=['GLib', 'GObject', 'FooExt'], warnings=False)
     return r.xml
 
 
@@ -143,6 +156,15 @@ def vfunc_world(rng, S, ET):
         line += 20
         if rng.random() < 0.6:      # the invoker method
             syms.append(S.func('foo_vobj_vm%d' % i, tree(rt), [S.param(n, tree(t)) for n, t in zip(pnames, ptypes)], line=40 + i))
+    if rng.random() < 0.7:
+        # an asynchronous triple among the virtual methods and among the methods: load / load_async / load_finish
+        selfp = lambda: S.param('self', tree('FooVObj*'))
+        kids += [member_cb('load_async', 'void', [selfp(), S.param('callback', S.td('GAsyncReadyCallback')), S.param('user_data', S.td('gpointer'))], 70),
+                 member_cb('load_finish', 'gboolean', [selfp(), S.param('res', tree('GAsyncResult*'))], 71),
+                 member_cb('load', 'gboolean', [selfp()], 72)]
+        syms += [S.func('foo_vobj_load_async', S.VOID, [selfp(), S.param('callback', S.td('GAsyncReadyCallback')), S.param('user_data', S.td('gpointer'))], line=80),
+                 S.func('foo_vobj_load_finish', S.td('gboolean'), [selfp(), S.param('res', tree('GAsyncResult*'))], line=81),
+                 S.func('foo_vobj_load', S.td('gboolean'), [selfp()], line=82)]
     syms.append(S.FS(S.CSYMBOL_TYPE_STRUCT, '_FooVObjClass', base_type=S.FT(S.CTYPE_STRUCT, '_FooVObjClass', child_list=kids), line=21))
     # a plain table of operations: some members cannot be described
     ops = [S.FS(S.CSYMBOL_TYPE_MEMBER, 'count', base_type=S.td('gint'), line=61),
